@@ -22,19 +22,21 @@ type accKey struct {
 
 type Summary struct {
 	Acc    map[accKey]string // -> site of a representative instruction
-	RetO   TagSet
-	RetC   TagSet
+	Ret    []Val // per result
 	Cb     map[Tag]TagSet // function-typed parameter / free variable that is invoked -> roots of the arguments it gets
 	API    map[string]bool
 	Spawns bool
 }
 
 func newSummary() *Summary {
-	return &Summary{Acc: map[accKey]string{}, RetO: TagSet{}, RetC: TagSet{}, Cb: map[Tag]TagSet{}, API: map[string]bool{}}
+	return &Summary{Acc: map[accKey]string{}, Cb: map[Tag]TagSet{}, API: map[string]bool{}}
 }
 
 func (s *Summary) size() int {
-	n := len(s.Acc) + len(s.RetO) + len(s.RetC) + len(s.API)
+	n := len(s.Acc) + len(s.API)
+	for _, r := range s.Ret {
+		n += len(r[0]) + len(r[1]) + len(r[2])
+	}
 	for _, t := range s.Cb {
 		n += 1 + len(t)
 	}
@@ -60,6 +62,16 @@ type accRec struct {
 	Site  string
 }
 
+type cellInfo struct {
+	escapes bool
+	stores  []cellStore
+}
+
+type cellStore struct {
+	g   *ssa.Function
+	val ssa.Value
+}
+
 type Analyzer struct {
 	prog        *ssa.Program
 	sum         map[*ssa.Function]*Summary
@@ -74,11 +86,14 @@ type Analyzer struct {
 	frames      map[*ssa.Function]*funcAnalysis // current iteration
 	final       map[*ssa.Function]*funcAnalysis // frames of the last iteration for recorded functions
 	groupStores map[*ssa.Function][]storeRec
+	cells       map[*ssa.Alloc]*cellInfo
 	guardsOf    map[string]map[string]bool
 	notes       map[string]bool
 	excluded    map[string]bool
 	syncedM     string
-	modPrefix   string
+	exprFn      types.Type // govaluate.ExpressionFunction
+	exprParams  types.Type // govaluate.Parameters
+	rounds      int
 }
 
 type storeRec struct {
@@ -93,7 +108,7 @@ func newAnalyzer(prog *ssa.Program) *Analyzer {
 		closureSite: map[*ssa.Function]*ssa.MakeClosure{}, implCache: map[string][]*ssa.Function{},
 		benign: map[benignKey]*benignEntry{}, record: map[*ssa.Function]bool{}, groupStores: map[*ssa.Function][]storeRec{},
 		guardsOf: map[string]map[string]bool{}, notes: map[string]bool{}, excluded: map[string]bool{},
-		syncedM: "casbin.SyncedEnforcer.m", final: map[*ssa.Function]*funcAnalysis{}}
+		syncedM: "casbin.SyncedEnforcer.m", final: map[*ssa.Function]*funcAnalysis{}, cells: map[*ssa.Alloc]*cellInfo{}}
 	taken := map[*ssa.Function]bool{}
 	for fn := range ssautil.AllFunctions(prog) {
 		if fn.Blocks == nil {
@@ -128,6 +143,14 @@ func newAnalyzer(prog *ssa.Program) *Analyzer {
 	}
 	sort.Slice(A.addrTaken, func(i, j int) bool { return A.addrTaken[i].String() < A.addrTaken[j].String() })
 	for _, p := range prog.AllPackages() {
+		if p.Pkg.Path() == "github.com/casbin/govaluate" {
+			if o := p.Pkg.Scope().Lookup("ExpressionFunction"); o != nil {
+				A.exprFn = o.Type()
+			}
+			if o := p.Pkg.Scope().Lookup("Parameters"); o != nil {
+				A.exprParams = o.Type()
+			}
+		}
 		if !isBuilt(p) {
 			continue
 		}
@@ -170,8 +193,12 @@ func (A *Analyzer) need(f *ssa.Function) {
 
 // run iterates the summaries to a fixpoint (the sets only grow).
 func (A *Analyzer) run() {
-	for it := 0; it < 60; it++ {
+	for it := 0; it < 80; it++ {
+		A.rounds = it + 1
 		A.frames = map[*ssa.Function]*funcAnalysis{}
+		for _, e := range A.benign {
+			e.Used = 0
+		}
 		changed := false
 		for i := 0; i < len(A.order); i++ {
 			f := A.order[i]
@@ -190,15 +217,15 @@ func (A *Analyzer) run() {
 			return
 		}
 	}
-	A.note("summary fixpoint not reached in 60 rounds")
+	A.note("summary fixpoint not reached in 80 rounds")
 }
 
 type funcAnalysis struct {
 	A        *Analyzer
 	fn       *ssa.Function
-	o, c     map[ssa.Value]TagSet
+	vals     map[ssa.Value]Val
 	inprog   map[ssa.Value]bool
-	cont     map[ssa.Value]TagSet
+	cont     map[ssa.Value][2]TagSet
 	contProg map[ssa.Value]bool
 	sum      *Summary
 	instrAcc map[ssa.Instruction][]accRec
@@ -213,8 +240,8 @@ func (A *Analyzer) frame(f *ssa.Function) *funcAnalysis {
 	if fa, ok := A.frames[f]; ok {
 		return fa
 	}
-	fa := &funcAnalysis{A: A, fn: f, o: map[ssa.Value]TagSet{}, c: map[ssa.Value]TagSet{}, inprog: map[ssa.Value]bool{},
-		cont: map[ssa.Value]TagSet{}, contProg: map[ssa.Value]bool{}, sum: newSummary(),
+	fa := &funcAnalysis{A: A, fn: f, vals: map[ssa.Value]Val{}, inprog: map[ssa.Value]bool{},
+		cont: map[ssa.Value][2]TagSet{}, contProg: map[ssa.Value]bool{}, sum: newSummary(),
 		instrAcc: map[ssa.Instruction][]accRec{}, instrAPI: map[ssa.Instruction][]string{}, spawned: map[ssa.Instruction]*ssa.Function{}}
 	A.frames[f] = fa
 	return fa
@@ -235,134 +262,140 @@ func (fa *funcAnalysis) site(ins ssa.Instruction) string {
 
 // ---------------------------------------------------------------- roots of values
 
-func (fa *funcAnalysis) OCu(v ssa.Value) TagSet {
-	o, c := fa.OC(v)
-	return union(o, c)
-}
-
-func (fa *funcAnalysis) O(v ssa.Value) TagSet {
-	o, _ := fa.OC(v)
-	return o
-}
-
-func (fa *funcAnalysis) OC(v ssa.Value) (TagSet, TagSet) {
+func (fa *funcAnalysis) D(v ssa.Value) Val {
 	if v == nil {
-		return TagSet{}, TagSet{}
+		return newVal()
 	}
-	if o, ok := fa.o[v]; ok {
-		return o, fa.c[v]
+	if d, ok := fa.vals[v]; ok {
+		return d
 	}
 	if fa.inprog[v] {
-		return TagSet{}, TagSet{}
+		return newVal()
 	}
 	fa.inprog[v] = true
-	o, c := fa.oc1(v)
+	d := fa.d1(v)
 	delete(fa.inprog, v)
-	c = union(c, o.nonLocal())
-	fa.o[v], fa.c[v] = o, c
-	return o, c
+	fa.vals[v] = d
+	return d
 }
 
-func (fa *funcAnalysis) oc1(v ssa.Value) (TagSet, TagSet) {
+func (fa *funcAnalysis) O(v ssa.Value) TagSet { return fa.D(v)[0] }
+
+func (fa *funcAnalysis) All(v ssa.Value) TagSet { return fa.D(v).all() }
+
+func (fa *funcAnalysis) d1(v ssa.Value) Val {
 	if !hasPointers(v.Type()) {
-		return TagSet{}, TagSet{}
-	}
-	same := func(x ssa.Value) (TagSet, TagSet) { return fa.OC(x) }
-	loaded := func(x ssa.Value) (TagSet, TagSet) {
-		_, c := fa.OC(x)
-		return c, c
+		return newVal()
 	}
 	switch x := v.(type) {
 	case *ssa.Parameter:
 		for i, p := range fa.fn.Params {
 			if p == x {
-				t := Tag{K: tParam, I: i}
-				return TagSet{t: true}, TagSet{t: true}
+				return rootVal(tParam, i)
 			}
 		}
-		return TagSet{tagShared: true}, TagSet{tagShared: true}
+		return sharedVal
 	case *ssa.FreeVar:
 		for i, p := range fa.fn.FreeVars {
 			if p == x {
-				t := Tag{K: tFree, I: i}
-				return TagSet{t: true}, TagSet{t: true}
+				return rootVal(tFree, i)
 			}
 		}
-		return TagSet{tagShared: true}, TagSet{tagShared: true}
+		return sharedVal
 	case *ssa.Global:
-		return TagSet{tagShared: true}, TagSet{tagShared: true}
+		return sharedVal
 	case *ssa.Const, *ssa.Function, *ssa.Builtin:
-		return TagSet{}, TagSet{}
+		return newVal()
 	case *ssa.Alloc, *ssa.MakeMap, *ssa.MakeSlice, *ssa.MakeChan:
-		return TagSet{tagLoc: true}, fa.contents(v)
+		c := fa.contents(v)
+		return Val{TagSet{tagLoc: true}, c[0], c[1]}
 	case *ssa.MakeClosure:
-		c := TagSet{}
+		r := Val{TagSet{tagLoc: true}, TagSet{}, TagSet{}}
 		for _, b := range x.Bindings {
-			c.addAll(fa.OCu(b))
+			d := fa.D(b)
+			r[1].addAll(d[0])
+			r[2].addAll(d[1])
+			r[2].addAll(d[2])
 		}
-		return TagSet{tagLoc: true}, c
+		return r
 	case *ssa.MakeInterface:
-		return same(x.X)
+		return fa.D(x.X)
 	case *ssa.ChangeType:
-		return same(x.X)
+		return fa.D(x.X)
 	case *ssa.ChangeInterface:
-		return same(x.X)
+		return fa.D(x.X)
 	case *ssa.Convert:
-		return same(x.X)
+		return fa.D(x.X)
 	case *ssa.SliceToArrayPointer:
-		return same(x.X)
+		return fa.D(x.X)
 	case *ssa.TypeAssert:
-		return same(x.X)
+		return fa.D(x.X)
 	case *ssa.Slice:
-		return same(x.X)
+		return fa.D(x.X)
 	case *ssa.FieldAddr:
-		return same(x.X)
+		return fa.D(x.X)
 	case *ssa.IndexAddr:
-		return same(x.X)
+		return fa.D(x.X)
 	case *ssa.Field:
-		return same(x.X)
+		return fa.D(x.X)
 	case *ssa.Index:
-		return same(x.X)
+		return fa.D(x.X)
 	case *ssa.Lookup:
-		return loaded(x.X)
+		return fa.D(x.X).shift()
 	case *ssa.UnOp:
 		if x.Op == token.MUL {
-			return loaded(x.X)
+			return fa.D(x.X).shift()
 		}
 		if x.Op == token.ARROW {
-			u := fa.OCu(x.X)
-			return u, u
+			return flat(fa.All(x.X))
 		}
-		return TagSet{}, TagSet{}
+		return newVal()
 	case *ssa.BinOp:
-		return TagSet{}, TagSet{}
+		return newVal()
 	case *ssa.Phi:
-		o, c := TagSet{}, TagSet{}
+		r := newVal()
 		for _, e := range x.Edges {
-			eo, ec := fa.OC(e)
-			o.addAll(eo)
-			c.addAll(ec)
+			r.addVal(fa.D(e))
 		}
-		return o, c
+		return r
 	case *ssa.Extract:
-		return same(x.Tuple)
+		if c, ok := x.Tuple.(*ssa.Call); ok {
+			rs := fa.callResults(c)
+			if x.Index < len(rs) {
+				return fa.withStores(x, rs[x.Index])
+			}
+		}
+		return fa.D(x.Tuple)
 	case *ssa.Next:
 		if r, ok := x.Iter.(*ssa.Range); ok {
-			return loaded(r.X)
+			return fa.D(r.X).shift()
 		}
-		return TagSet{tagShared: true}, TagSet{tagShared: true}
+		return sharedVal
 	case *ssa.Range:
-		return same(x.X)
+		return fa.D(x.X)
 	case *ssa.Select:
 		u := TagSet{}
 		for _, st := range x.States {
-			u.addAll(fa.OCu(st.Chan))
+			u.addAll(fa.All(st.Chan))
 		}
-		return u, u
+		return flat(u)
 	case *ssa.Call:
-		return fa.callResult(x)
+		r := newVal()
+		for _, x := range fa.callResults(x) {
+			r.addVal(x)
+		}
+		return fa.withStores(v, r)
 	}
-	return TagSet{tagShared: true}, TagSet{tagShared: true}
+	return sharedVal
+}
+
+// withStores adds, for a fresh object returned by a callee, what this frame stores into it.
+func (fa *funcAnalysis) withStores(v ssa.Value, r Val) Val {
+	if r[0][tagLoc] {
+		c := fa.contents(v)
+		r = Val{r[0], union(r[1], c[0]), union(r[2], c[1])}
+	}
+	return r
 }
 
 // ---------------------------------------------------------------- contents of local objects
@@ -412,8 +445,6 @@ func (A *Analyzer) stores(root *ssa.Function) []storeRec {
 					all := append([]ssa.Value{}, cc.Args...)
 					if cc.IsInvoke() {
 						all = append(all, cc.Value)
-					} else if mc, ok := cc.Value.(*ssa.MakeClosure); ok {
-						all = append(all, mc.Bindings...)
 					}
 					for i, a := range all {
 						if !hasPointers(a.Type()) {
@@ -437,82 +468,181 @@ func (A *Analyzer) stores(root *ssa.Function) []storeRec {
 	return recs
 }
 
-// baseSites walks an address back to the local allocation sites whose cluster it lies in.
-func (A *Analyzer) baseSites(g *ssa.Function, v ssa.Value, seen map[ssa.Value]bool, out map[ssa.Value]bool) {
-	if v == nil || seen[v] {
+// resolveCell follows a free variable to the local variable cell it captures.
+func (A *Analyzer) resolveCell(v ssa.Value) *ssa.Alloc {
+	for i := 0; i < 20; i++ {
+		switch x := v.(type) {
+		case *ssa.Alloc:
+			return x
+		case *ssa.FreeVar:
+			fn := x.Parent()
+			mc := A.closureSite[fn]
+			if mc == nil {
+				return nil
+			}
+			found := false
+			for k, fv := range fn.FreeVars {
+				if fv == x && k < len(mc.Bindings) {
+					v = mc.Bindings[k]
+					found = true
+				}
+			}
+			if !found {
+				return nil
+			}
+		default:
+			return nil
+		}
+	}
+	return nil
+}
+
+// cell describes a local variable cell: the values stored straight into it, and whether its
+// address is used for anything but loads, direct stores and closure capture.
+func (A *Analyzer) cell(a *ssa.Alloc) *cellInfo {
+	if ci, ok := A.cells[a]; ok {
+		return ci
+	}
+	ci := &cellInfo{}
+	A.cells[a] = ci
+	var visit func(v ssa.Value, g *ssa.Function)
+	visit = func(v ssa.Value, g *ssa.Function) {
+		refs := v.Referrers()
+		if refs == nil {
+			ci.escapes = true
+			return
+		}
+		for _, r := range *refs {
+			switch x := r.(type) {
+			case *ssa.Store:
+				if x.Addr == v && x.Val != v {
+					ci.stores = append(ci.stores, cellStore{g, x.Val})
+				} else {
+					ci.escapes = true
+				}
+			case *ssa.UnOp:
+			case *ssa.DebugRef:
+			case *ssa.MakeClosure:
+				f := x.Fn.(*ssa.Function)
+				for k, b := range x.Bindings {
+					if b == v && k < len(f.FreeVars) {
+						visit(f.FreeVars[k], f)
+					}
+				}
+			default:
+				ci.escapes = true
+			}
+		}
+	}
+	visit(a, a.Parent())
+	return ci
+}
+
+// baseSites walks an address back to the local allocation sites it may lie in.  Level 1: the
+// site's own memory; level 2: reached through a pointer loaded from the site (collapsed).
+func (A *Analyzer) baseSites(g *ssa.Function, v ssa.Value, lvl int, seen map[ssa.Value]int, out map[ssa.Value]int) {
+	if v == nil || seen[v] >= lvl {
 		return
 	}
-	seen[v] = true
+	seen[v] = lvl
 	switch x := v.(type) {
-	case *ssa.Alloc, *ssa.MakeMap, *ssa.MakeSlice, *ssa.MakeChan:
-		out[v] = true
-	case *ssa.FieldAddr:
-		A.baseSites(g, x.X, seen, out)
-	case *ssa.IndexAddr:
-		A.baseSites(g, x.X, seen, out)
-	case *ssa.Slice:
-		A.baseSites(g, x.X, seen, out)
-	case *ssa.ChangeType:
-		A.baseSites(g, x.X, seen, out)
-	case *ssa.Convert:
-		A.baseSites(g, x.X, seen, out)
-	case *ssa.MakeInterface:
-		A.baseSites(g, x.X, seen, out)
-	case *ssa.TypeAssert:
-		A.baseSites(g, x.X, seen, out)
-	case *ssa.Field:
-		A.baseSites(g, x.X, seen, out)
-	case *ssa.Index:
-		A.baseSites(g, x.X, seen, out)
-	case *ssa.Lookup:
-		A.baseSites(g, x.X, seen, out)
-	case *ssa.UnOp:
-		if x.Op == token.MUL {
-			A.baseSites(g, x.X, seen, out)
+	case *ssa.Alloc, *ssa.MakeMap, *ssa.MakeSlice, *ssa.MakeChan, *ssa.Call:
+		if out[v] < lvl {
+			out[v] = lvl
 		}
 	case *ssa.Extract:
-		A.baseSites(g, x.Tuple, seen, out)
+		if _, ok := x.Tuple.(*ssa.Call); ok {
+			if out[v] < lvl {
+				out[v] = lvl
+			}
+			return
+		}
+		A.baseSites(g, x.Tuple, lvl, seen, out)
+	case *ssa.FieldAddr:
+		A.baseSites(g, x.X, lvl, seen, out)
+	case *ssa.IndexAddr:
+		A.baseSites(g, x.X, lvl, seen, out)
+	case *ssa.Slice:
+		A.baseSites(g, x.X, lvl, seen, out)
+	case *ssa.ChangeType:
+		A.baseSites(g, x.X, lvl, seen, out)
+	case *ssa.Convert:
+		A.baseSites(g, x.X, lvl, seen, out)
+	case *ssa.MakeInterface:
+		A.baseSites(g, x.X, lvl, seen, out)
+	case *ssa.TypeAssert:
+		A.baseSites(g, x.X, lvl, seen, out)
+	case *ssa.Field:
+		A.baseSites(g, x.X, 2, seen, out)
+	case *ssa.Index:
+		A.baseSites(g, x.X, 2, seen, out)
+	case *ssa.Lookup:
+		A.baseSites(g, x.X, 2, seen, out)
+	case *ssa.UnOp:
+		if x.Op == token.MUL {
+			if c := A.resolveCell(x.X); c != nil {
+				if ci := A.cell(c); !ci.escapes {
+					for _, st := range ci.stores {
+						A.baseSites(st.g, st.val, lvl, seen, out)
+					}
+					return
+				}
+			}
+			A.baseSites(g, x.X, 2, seen, out)
+		}
 	case *ssa.Next:
 		if r, ok := x.Iter.(*ssa.Range); ok {
-			A.baseSites(g, r.X, seen, out)
+			A.baseSites(g, r.X, 2, seen, out)
 		}
 	case *ssa.Phi:
 		for _, e := range x.Edges {
-			A.baseSites(g, e, seen, out)
+			A.baseSites(g, e, lvl, seen, out)
 		}
 	case *ssa.FreeVar:
 		fn := x.Parent()
 		if mc := A.closureSite[fn]; mc != nil {
 			for i, fv := range fn.FreeVars {
 				if fv == x && i < len(mc.Bindings) {
-					A.baseSites(mc.Parent(), mc.Bindings[i], seen, out)
+					A.baseSites(mc.Parent(), mc.Bindings[i], lvl, seen, out)
 				}
 			}
 		}
 	}
 }
 
-func (fa *funcAnalysis) contents(site ssa.Value) TagSet {
+func (fa *funcAnalysis) contents(site ssa.Value) [2]TagSet {
 	if c, ok := fa.cont[site]; ok {
 		return c
 	}
 	if fa.contProg[site] {
-		return TagSet{}
+		return [2]TagSet{{}, {}}
 	}
 	fa.contProg[site] = true
-	res := TagSet{}
+	res := [2]TagSet{{}, {}}
 	for _, rec := range fa.A.stores(outermost(fa.fn)) {
-		sites := map[ssa.Value]bool{}
-		fa.A.baseSites(rec.g, rec.addr, map[ssa.Value]bool{}, sites)
-		if !sites[site] {
+		sites := map[ssa.Value]int{}
+		fa.A.baseSites(rec.g, rec.addr, 1, map[ssa.Value]int{}, sites)
+		lvl := sites[site]
+		if lvl == 0 {
 			continue
 		}
 		gfa := fa.A.frame(rec.g)
 		if rec.val != nil {
-			res.addAll(fa.A.lift(rec.g, fa.fn, gfa.OCu(rec.val)))
+			dv := fa.A.lift(rec.g, fa.fn, gfa.D(rec.val))
+			if lvl == 1 {
+				res[0].addAll(dv[0])
+				res[1].addAll(dv[1])
+				res[1].addAll(dv[2])
+			} else {
+				u := dv.all()
+				res[0].addAll(u)
+				res[1].addAll(u)
+			}
 		}
 		for _, o := range rec.link {
-			res.addAll(fa.A.lift(rec.g, fa.fn, gfa.OCu(o)).nonLocal())
+			u := fa.A.lift(rec.g, fa.fn, gfa.D(o)).all().nonLocal()
+			res[0].addAll(u)
+			res[1].addAll(u)
 		}
 	}
 	delete(fa.contProg, site)
@@ -520,26 +650,29 @@ func (fa *funcAnalysis) contents(site ssa.Value) TagSet {
 	return res
 }
 
-// lift translates tags of frame g into the frame of its lexical ancestor f.
-func (A *Analyzer) lift(g, f *ssa.Function, tags TagSet) TagSet {
+// lift translates a value of frame g into the frame of its lexical ancestor f.
+func (A *Analyzer) lift(g, f *ssa.Function, d Val) Val {
 	if g == f {
-		return tags
+		return d
 	}
-	res := TagSet{}
-	for t := range tags {
-		switch t.K {
-		case tLoc:
-			res[tagLoc] = true
-		case tShared, tParam, tVia:
-			res[tagShared] = true
-		case tFree:
-			mc := A.closureSite[g]
-			if mc == nil || g.Parent() == nil || t.I >= len(mc.Bindings) {
-				res[tagShared] = true
-				continue
+	res := newVal()
+	for lv := 0; lv < 3; lv++ {
+		for t := range d[lv] {
+			switch t.K {
+			case tLoc:
+				res[lv][tagLoc] = true
+			case tShared, tParam, tVia:
+				res[lv][tagShared] = true
+			case tFree:
+				mc := A.closureSite[g]
+				if mc == nil || g.Parent() == nil || t.I >= len(mc.Bindings) {
+					res[lv][tagShared] = true
+					continue
+				}
+				p := g.Parent()
+				up := A.lift(p, f, A.frame(p).D(mc.Bindings[t.I]))
+				res[lv].addAll(up[t.D])
 			}
-			p := g.Parent()
-			res.addAll(A.lift(p, f, A.frame(p).OCu(mc.Bindings[t.I])))
 		}
 	}
 	return res
@@ -549,11 +682,13 @@ func (A *Analyzer) lift(g, f *ssa.Function, tags TagSet) TagSet {
 
 type target struct {
 	fn    *ssa.Function
-	pmap  []TagSet    // roots for each parameter
-	fmap  []TagSet    // roots for each free variable (nil: escaped closure => shared)
+	pmap  []Val       // roots for each parameter
+	fmap  []Val       // roots for each free variable (nil: escaped closure => shared)
 	argv  []ssa.Value // actual parameter values when known
 	bindv []ssa.Value // actual bindings when known
 }
+
+var capturedVia = Tag{K: tVia, S: "captured"}
 
 func (t *target) mapTag(tag Tag) TagSet {
 	switch tag.K {
@@ -563,14 +698,14 @@ func (t *target) mapTag(tag Tag) TagSet {
 		return TagSet{tagShared: true}
 	case tParam:
 		if tag.I < len(t.pmap) {
-			return t.pmap[tag.I]
+			return t.pmap[tag.I][tag.D]
 		}
 		return TagSet{tagShared: true}
 	case tFree:
 		if t.fmap != nil && tag.I < len(t.fmap) {
-			return t.fmap[tag.I]
+			return t.fmap[tag.I][tag.D]
 		}
-		return TagSet{tagShared: true}
+		return TagSet{tagShared: true, capturedVia: true}
 	}
 	return TagSet{}
 }
@@ -581,6 +716,10 @@ func (t *target) mapSet(s TagSet) TagSet {
 		r.addAll(t.mapTag(tag))
 	}
 	return r
+}
+
+func (t *target) mapVal(v Val) Val {
+	return Val{t.mapSet(v[0]), t.mapSet(v[1]), t.mapSet(v[2])}
 }
 
 func (A *Analyzer) isMock(t types.Type) bool {
@@ -594,8 +733,8 @@ func (A *Analyzer) isMock(t types.Type) bool {
 	return strings.HasSuffix(n.Obj().Name(), "Mock")
 }
 
-func (A *Analyzer) impls(iface types.Type, method *types.Func) []*ssa.Function {
-	key := iface.String() + "#" + method.Name()
+func (A *Analyzer) impls(iface types.Type, pkg *types.Package, method string) []*ssa.Function {
+	key := iface.String() + "#" + method
 	if r, ok := A.implCache[key]; ok {
 		return r
 	}
@@ -614,7 +753,7 @@ func (A *Analyzer) impls(iface types.Type, method *types.Func) []*ssa.Function {
 				A.excluded[typeName(T)] = true
 				continue
 			}
-			sel := A.prog.MethodSets.MethodSet(pt).Lookup(method.Pkg(), method.Name())
+			sel := A.prog.MethodSets.MethodSet(pt).Lookup(pkg, method)
 			if sel == nil {
 				continue
 			}
@@ -648,45 +787,84 @@ func (A *Analyzer) bySig(t types.Type) []*ssa.Function {
 	return res
 }
 
-func (fa *funcAnalysis) paramTags(args []ssa.Value) []TagSet {
-	r := make([]TagSet, len(args))
+func (fa *funcAnalysis) paramVals(args []ssa.Value) []Val {
+	r := make([]Val, len(args))
 	for i, a := range args {
-		r[i] = fa.OCu(a)
+		r[i] = fa.D(a)
 	}
 	return r
 }
 
-func uniform(n int, tags TagSet) []TagSet {
-	r := make([]TagSet, n)
+func uniform(n int, tags TagSet) []Val {
+	r := make([]Val, n)
 	for i := range r {
-		r[i] = tags
+		r[i] = flat(tags)
 	}
 	return r
 }
 
 // funcSources classifies where a function value comes from.
-func funcSources(v ssa.Value, seen map[ssa.Value]bool, out *[]ssa.Value) {
+func (fa *funcAnalysis) funcSources(v ssa.Value, seen map[ssa.Value]bool, out *[]ssa.Value) {
 	if seen[v] {
 		return
 	}
 	seen[v] = true
+	cellStores := func(a *ssa.Alloc) bool {
+		ci := fa.A.cell(a)
+		if ci.escapes || a.Parent() != fa.fn {
+			return false
+		}
+		for _, st := range ci.stores {
+			if st.g != fa.fn {
+				return false
+			}
+		}
+		for _, st := range ci.stores {
+			fa.funcSources(st.val, seen, out)
+		}
+		return true
+	}
 	switch x := v.(type) {
 	case *ssa.Phi:
 		for _, e := range x.Edges {
-			funcSources(e, seen, out)
+			fa.funcSources(e, seen, out)
 		}
 	case *ssa.ChangeType:
-		funcSources(x.X, seen, out)
+		fa.funcSources(x.X, seen, out)
+	case *ssa.Alloc:
+		if !cellStores(x) {
+			*out = append(*out, v)
+		}
+	case *ssa.UnOp:
+		if x.Op == token.MUL {
+			switch c := x.X.(type) {
+			case *ssa.Alloc:
+				if cellStores(c) {
+					return
+				}
+			case *ssa.FreeVar:
+				*out = append(*out, c)
+				return
+			}
+		}
+		*out = append(*out, v)
 	default:
 		*out = append(*out, v)
 	}
 }
 
-// targetsOfValue resolves a call through a function value.  cbSrc receives the parameters / free
-// variables of the current function the value may be.
-func (fa *funcAnalysis) targetsOfValue(val ssa.Value, pm []TagSet, argv []ssa.Value, cbTags TagSet) []*target {
+func (fa *funcAnalysis) addCb(k Tag, tags TagSet) {
+	k.D = 0
+	if fa.sum.Cb[k] == nil {
+		fa.sum.Cb[k] = TagSet{}
+	}
+	fa.sum.Cb[k].addAll(tags)
+}
+
+// targetsOfValue resolves a call through a function value.
+func (fa *funcAnalysis) targetsOfValue(val ssa.Value, pm []Val, argv []ssa.Value, cbTags TagSet) []*target {
 	var srcs []ssa.Value
-	funcSources(val, map[ssa.Value]bool{}, &srcs)
+	fa.funcSources(val, map[ssa.Value]bool{}, &srcs)
 	var ts []*target
 	mk := func(f *ssa.Function) *target {
 		p := pm
@@ -705,31 +883,27 @@ func (fa *funcAnalysis) targetsOfValue(val ssa.Value, pm []TagSet, argv []ssa.Va
 			f := x.Fn.(*ssa.Function)
 			t := mk(f)
 			t.bindv = x.Bindings
-			t.fmap = fa.paramTags(x.Bindings)
+			t.fmap = fa.paramVals(x.Bindings)
 			ts = append(ts, t)
 		case *ssa.Parameter:
 			for i, p := range fa.fn.Params {
 				if p == x {
-					k := Tag{K: tParam, I: i}
-					if fa.sum.Cb[k] == nil {
-						fa.sum.Cb[k] = TagSet{}
-					}
-					fa.sum.Cb[k].addAll(cbTags)
+					fa.addCb(Tag{K: tParam, I: i}, cbTags)
 				}
 			}
 		case *ssa.FreeVar:
 			for i, p := range fa.fn.FreeVars {
 				if p == x {
-					k := Tag{K: tFree, I: i}
-					if fa.sum.Cb[k] == nil {
-						fa.sum.Cb[k] = TagSet{}
-					}
-					fa.sum.Cb[k].addAll(cbTags)
+					fa.addCb(Tag{K: tFree, I: i}, cbTags)
 				}
 			}
 		case *ssa.Const:
 		default:
-			for _, f := range fa.A.bySig(s.Type()) {
+			ty := s.Type()
+			if p, ok := ty.Underlying().(*types.Pointer); ok {
+				ty = p.Elem()
+			}
+			for _, f := range fa.A.bySig(ty) {
 				ts = append(ts, mk(f))
 			}
 		}
@@ -740,10 +914,10 @@ func (fa *funcAnalysis) targetsOfValue(val ssa.Value, pm []TagSet, argv []ssa.Va
 func (fa *funcAnalysis) allArgTags(cc *ssa.CallCommon) TagSet {
 	u := TagSet{}
 	for _, a := range cc.Args {
-		u.addAll(fa.OCu(a))
+		u.addAll(fa.All(a))
 	}
 	if cc.IsInvoke() {
-		u.addAll(fa.OCu(cc.Value))
+		u.addAll(fa.All(cc.Value))
 	}
 	return u
 }
@@ -752,8 +926,8 @@ func (fa *funcAnalysis) allArgTags(cc *ssa.CallCommon) TagSet {
 func (fa *funcAnalysis) resolve(cc *ssa.CallCommon) (ts []*target, opaque *ssa.Function, bi *ssa.Builtin) {
 	if cc.IsInvoke() {
 		all := append([]ssa.Value{cc.Value}, cc.Args...)
-		pm := fa.paramTags(all)
-		for _, f := range fa.A.impls(cc.Value.Type(), cc.Method) {
+		pm := fa.paramVals(all)
+		for _, f := range fa.A.impls(cc.Value.Type(), cc.Method.Pkg(), cc.Method.Name()) {
 			ts = append(ts, &target{fn: f, pmap: pm, argv: all})
 		}
 		return
@@ -765,9 +939,9 @@ func (fa *funcAnalysis) resolve(cc *ssa.CallCommon) (ts []*target, opaque *ssa.F
 		if v.Blocks == nil {
 			return nil, v, nil
 		}
-		return []*target{{fn: v, pmap: fa.paramTags(cc.Args), argv: cc.Args}}, nil, nil
+		return []*target{{fn: v, pmap: fa.paramVals(cc.Args), argv: cc.Args}}, nil, nil
 	}
-	return fa.targetsOfValue(cc.Value, fa.paramTags(cc.Args), cc.Args, fa.allArgTags(cc)), nil, nil
+	return fa.targetsOfValue(cc.Value, fa.paramVals(cc.Args), cc.Args, fa.allArgTags(cc)), nil, nil
 }
 
 var containerTypes = map[string]bool{"sync.Map": true, "list.List": true, "list.Element": true, "atomic.Value": true, "sync.Pool": true, "ring.Ring": true}
@@ -779,36 +953,28 @@ func recvTypeName(f *ssa.Function) string {
 	return typeName(f.Signature.Recv().Type())
 }
 
-func (fa *funcAnalysis) callResult(call *ssa.Call) (TagSet, TagSet) {
+func (fa *funcAnalysis) callResults(call *ssa.Call) []Val {
+	n := 1
+	if tup, ok := call.Type().(*types.Tuple); ok {
+		n = tup.Len()
+	}
+	one := func(v Val) []Val {
+		r := make([]Val, n)
+		for i := range r {
+			r[i] = v
+		}
+		return r
+	}
 	cc := call.Common()
 	ts, opaque, bi := fa.resolve(cc)
-	if bi != nil {
-		switch bi.Name() {
-		case "append":
-			o, c := fa.OC(cc.Args[0])
-			o = union(o, TagSet{tagLoc: true})
-			if len(cc.Args) > 1 {
-				c = union(c, fa.OCu(cc.Args[1]))
-			}
-			return o, c
-		}
-		return TagSet{tagLoc: true}, TagSet{}
+	fresh := Val{TagSet{tagLoc: true}, TagSet{}, TagSet{}}
+	if bi != nil || opaque != nil || len(ts) == 0 {
+		return one(fa.callResult1(cc, ts, opaque, bi))
 	}
-	if opaque != nil {
-		if containerTypes[recvTypeName(opaque)] && len(cc.Args) > 0 {
-			u := fa.OCu(cc.Args[0])
-			return u, u
-		}
-		return TagSet{tagLoc: true}, TagSet{}
-	}
-	o, c := TagSet{}, TagSet{}
-	if len(ts) == 0 {
-		// user-supplied implementation / callback: result assumed fresh unless it came through a
-		// function-typed parameter of this function
-		if !cc.IsInvoke() {
-			return TagSet{tagShared: true}, TagSet{tagShared: true}
-		}
-		return TagSet{tagLoc: true}, TagSet{}
+	_ = fresh
+	rs := make([]Val, n)
+	for i := range rs {
+		rs[i] = newVal()
 	}
 	for _, t := range ts {
 		fa.A.need(t.fn)
@@ -816,37 +982,75 @@ func (fa *funcAnalysis) callResult(call *ssa.Call) (TagSet, TagSet) {
 		if s == nil {
 			continue
 		}
-		o.addAll(t.mapSet(s.RetO))
-		c.addAll(t.mapSet(s.RetC))
-	}
-	if len(union(o, c).nonLocal()) > 0 {
-		name := ""
-		if cc.IsInvoke() {
-			name = typeName(cc.Value.Type()) + "." + cc.Method.Name()
-		} else if len(ts) == 1 {
-			name = fnName(ts[0].fn)
-		} else {
-			name = "dynamic"
+		for i := 0; i < n && i < len(s.Ret); i++ {
+			rs[i].addVal(t.mapVal(s.Ret[i]))
 		}
-		v := Tag{K: tVia, S: name}
-		o[v] = true
-		c[v] = true
 	}
-	return o, c
+	name := ""
+	if cc.IsInvoke() {
+		name = typeName(cc.Value.Type()) + "." + cc.Method.Name()
+	} else if len(ts) == 1 {
+		name = fnName(ts[0].fn)
+	} else {
+		name = "dynamic"
+	}
+	via := Tag{K: tVia, S: name}
+	for k := range rs {
+		for i := 0; i < 3; i++ {
+			delete(rs[k][i], capturedVia)
+		}
+		if len(rs[k].all().nonLocal()) > 0 {
+			for i := 0; i < 3; i++ {
+				rs[k][i] = union(rs[k][i], TagSet{via: true})
+			}
+		}
+	}
+	return rs
+}
+
+func (fa *funcAnalysis) callResult1(cc *ssa.CallCommon, ts []*target, opaque *ssa.Function, bi *ssa.Builtin) Val {
+	fresh := Val{TagSet{tagLoc: true}, TagSet{}, TagSet{}}
+	if bi != nil {
+		if bi.Name() == "append" {
+			s := fa.D(cc.Args[0])
+			r := Val{union(s[0], TagSet{tagLoc: true}), union(s[1], nil), union(s[2], nil)}
+			if len(cc.Args) > 1 {
+				x := fa.D(cc.Args[1])
+				r[1].addAll(x[1])
+				r[2].addAll(x[2])
+			}
+			return r
+		}
+		return fresh
+	}
+	if opaque != nil {
+		if containerTypes[recvTypeName(opaque)] && len(cc.Args) > 0 {
+			return flat(fa.All(cc.Args[0]))
+		}
+		return fresh
+	}
+	if len(ts) == 0 {
+		// user-supplied implementation behind an interface: result assumed fresh; a call through
+		// a function value we cannot resolve: unknown
+		if !cc.IsInvoke() {
+			return sharedVal
+		}
+		return fresh
+	}
+	return fresh
 }
 
 // ---------------------------------------------------------------- accesses
 
 func (fa *funcAnalysis) access(kind byte, loc string, roots TagSet, site string) {
 	real := roots.realRoots()
-	vias := roots.vias()
 	if len(real) == 0 {
 		return
 	}
 	if loc == fa.A.syncedM || strings.HasPrefix(loc, "sync.") {
 		return
 	}
-	for _, via := range vias {
+	for _, via := range roots.vias() {
 		if e := fa.A.benign[benignKey{fnName(fa.fn), loc, via}]; e != nil {
 			e.Used++
 			return
@@ -883,11 +1087,17 @@ func (fa *funcAnalysis) access(kind byte, loc string, roots TagSet, site string)
 			}
 		}
 	}
+	if dl := os.Getenv("TR_DEBUG_LOC"); dl != "" && dl == loc {
+		fmt.Fprintf(os.Stderr, "access %c %s in %s roots %v site %s\n", kind, loc, fnName(fa.fn), roots, site)
+	}
 	sort.Slice(real, func(i, j int) bool {
 		if real[i].K != real[j].K {
 			return real[i].K < real[j].K
 		}
-		return real[i].I < real[j].I
+		if real[i].I != real[j].I {
+			return real[i].I < real[j].I
+		}
+		return real[i].D < real[j].D
 	})
 	for _, r := range real {
 		k := accKey{kind, loc, r}
@@ -906,15 +1116,12 @@ func (fa *funcAnalysis) apply(t *target) {
 	if s == nil {
 		return
 	}
-	keys := make([]accKey, 0, len(s.Acc))
-	for k := range s.Acc {
-		keys = append(keys, k)
-	}
-	for _, k := range keys {
-		fa.access(k.Kind, k.Loc, t.mapTag(k.Root), s.Acc[k])
+	for k, site := range s.Acc {
+		fa.access(k.Kind, k.Loc, t.mapTag(k.Root), site)
 	}
 	for src, argTags := range s.Cb {
 		mapped := t.mapSet(argTags)
+		delete(mapped, capturedVia)
 		var val ssa.Value
 		if src.K == tParam && src.I < len(t.argv) {
 			val = t.argv[src.I]
@@ -928,11 +1135,11 @@ func (fa *funcAnalysis) apply(t *target) {
 				ty = t.fn.Params[src.I].Type()
 			} else if src.K == tFree && src.I < len(t.fn.FreeVars) {
 				ty = t.fn.FreeVars[src.I].Type()
+			}
+			if ty != nil {
 				if p, ok := ty.Underlying().(*types.Pointer); ok {
 					ty = p.Elem()
 				}
-			}
-			if ty != nil {
 				for _, f := range fa.A.bySig(ty) {
 					fa.apply(&target{fn: f, pmap: uniform(len(f.Params), mapped)})
 				}
@@ -986,7 +1193,23 @@ func (fa *funcAnalysis) opaqueCall(f *ssa.Function, cc *ssa.CallCommon, ins ssa.
 			fa.access(k, locOf(cc.Args[0]), fa.O(cc.Args[0]), site)
 		}
 	case pkg == "sort" && recv == "" && len(cc.Args) > 0:
-		fa.access('w', withElems(locOf(cc.Args[0])), fa.OCu(cc.Args[0]), site)
+		d := fa.D(cc.Args[0])
+		fa.access('w', withElems(locOf(cc.Args[0])), union(d[0], d[1]), site)
+	case pkg == "github.com/casbin/govaluate":
+		// opaque by decision (README.md): evaluating / compiling an expression is assumed not to
+		// write to the compiled expression; the functions and parameters it was given are
+		// invoked from here
+		tags := union(fa.allArgTags(cc), TagSet{tagShared: true})
+		if fa.A.exprFn != nil {
+			for _, g := range fa.A.bySig(fa.A.exprFn) {
+				fa.apply(&target{fn: g, pmap: uniform(len(g.Params), tags)})
+			}
+		}
+		if fa.A.exprParams != nil {
+			for _, g := range fa.A.impls(fa.A.exprParams, nil, "Get") {
+				fa.apply(&target{fn: g, pmap: uniform(len(g.Params), tags)})
+			}
+		}
 	case recv != "" && !threadSafeRecv[recv] && len(cc.Args) > 0:
 		if _, isPtr := f.Signature.Recv().Type().(*types.Pointer); isPtr {
 			fa.access('w', locOf(cc.Args[0]), fa.O(cc.Args[0]), site)
@@ -1205,23 +1428,23 @@ func (fa *funcAnalysis) run() {
 					fa.spawned[ins] = f
 				}
 			case *ssa.Return:
-				for _, r := range x.Results {
-					o, c := fa.OC(r)
-					fa.sum.RetO.addAll(o)
-					fa.sum.RetC.addAll(c)
+				for len(fa.sum.Ret) < len(x.Results) {
+					fa.sum.Ret = append(fa.sum.Ret, newVal())
+				}
+				for i, r := range x.Results {
+					fa.sum.Ret[i].addVal(fa.D(r))
 				}
 			}
 		}
 	}
 	// markers are meaningless outside this frame
-	for t := range fa.sum.RetO {
-		if t.K == tVia {
-			delete(fa.sum.RetO, t)
-		}
-	}
-	for t := range fa.sum.RetC {
-		if t.K == tVia {
-			delete(fa.sum.RetC, t)
+	for k := range fa.sum.Ret {
+		for i := 0; i < 3; i++ {
+			for t := range fa.sum.Ret[k][i] {
+				if t.K == tVia {
+					delete(fa.sum.Ret[k][i], t)
+				}
+			}
 		}
 	}
 }
